@@ -39,6 +39,7 @@ type intent struct {
 	adv        *advInfo
 	gov        *govInfo
 	movesValue bool
+	batch      []*sendInfo // several sends performed by one transaction (multicall)
 }
 
 type sendInfo struct {
@@ -144,6 +145,8 @@ func (w *world) apply(op kernel.Op) {
 	switch op.K {
 	case "send":
 		w.opSend(op)
+	case "batch":
+		w.opBatch(op)
 	case "block":
 		w.opBlock(op)
 	case "relay":
@@ -197,9 +200,79 @@ func (w *world) apply(op kernel.Op) {
 // ------------------------------------------------------------------------------------------------
 // user sends
 
+var feeOptions = []uint64{0, 0, 1, 2, 1<<64 - 1, 1 << 63}
+
 var amountTable = []string{"1", "1000", "999999", "1000000000000000000", "79228162514264337593543950335", "0", "5000000000000000000000000"}
 
 func (w *world) opSend(op kernel.Op) {
+	c, si, data, value := w.buildSend(op)
+	to := endpointAddr
+	in := &intent{kind: "send", signer: si.user, eth: true, to: &to, value: value, data: data, send: si,
+		desc: fmt.Sprintf("send %s->%s tok=%s amt=%s call=%d fee=%s cb=%v", c.Cfg.Name, si.dstName, tokDesc(si.tok), si.amount, si.call, si.feeAmt, si.callback)}
+	c.mempool = append(c.mempool, in)
+	w.rec.Logf("submit %s", in.desc)
+}
+
+// opBatch: one Ethereum transaction (a contract creation whose constructor is a minimal multicall)
+// performs two or three crossChainCalls of the native coin, to the same or to different destinations.
+// The packets' sender is the created contract; the user pays.
+func (w *world) opBatch(op kernel.Op) {
+	c := w.chain(op.Arg(0))
+	u := w.users[kernel.Mod(op.Arg(1), len(w.users))]
+	n := 2 + kernel.Mod(op.Arg(2), 2)
+	var sis []*sendInfo
+	var calls []batchCall
+	total := new(big.Int)
+	desc := ""
+	for i := 0; i < n; i++ {
+		dsel := kernel.Mod(op.Arg(3)+int64(i)*op.Arg(4), 3)
+		sub := kernel.Op{K: "send", A: []int64{op.Arg(0), op.Arg(1), int64(dsel), 1, int64(kernel.Mod(op.Arg(5)+int64(i), 3)), int64(kernel.Mod(op.Arg(6)+int64(i), 2)), 0, int64(2 * i)}}
+		_, si, data, value := w.buildSend(sub)
+		sis = append(sis, si)
+		calls = append(calls, batchCall{value: value, payload: data})
+		total.Add(total, value)
+		desc += fmt.Sprintf(" [%s amt=%s call=%d]", si.dstName, si.amount, si.call)
+	}
+	in := &intent{kind: "send", signer: u, eth: true, to: nil, value: total, data: batchInitCode(endpointAddr, calls), send: sis[0], batch: sis,
+		desc: fmt.Sprintf("batch send on %s by %s:%s", c.Cfg.Name, u.Label, desc)}
+	c.mempool = append(c.mempool, in)
+	w.rec.Logf("submit %s", in.desc)
+}
+
+type batchCall struct {
+	value   *big.Int
+	payload []byte
+}
+
+// batchInitCode: creation code performing the calls to target in order, reverting everything if one
+// fails, and deploying an empty contract.
+func batchInitCode(target common.Address, calls []batchCall) []byte {
+	const segLen = 84
+	off := segLen*len(calls) + 5
+	var code []byte
+	for i, c := range calls {
+		n := len(c.payload)
+		ok := segLen*(i+1) - 1
+		seg := []byte{0x61, byte(n >> 8), byte(n), 0x61, byte(off >> 8), byte(off), 0x60, 0x00, 0x39, // CODECOPY(0, off, n)
+			0x60, 0x00, 0x60, 0x00, 0x61, byte(n >> 8), byte(n), 0x60, 0x00, 0x7f} // out size, out off, in size, in off, PUSH32 value
+		seg = append(seg, common.LeftPadBytes(c.value.Bytes(), 32)...)
+		seg = append(seg, 0x73)
+		seg = append(seg, target.Bytes()...)
+		seg = append(seg, 0x5a, 0xf1, 0x61, byte(ok>>8), byte(ok), 0x57, 0x60, 0x00, 0x60, 0x00, 0xfd, 0x5b)
+		if len(seg) != segLen {
+			panic(fmt.Sprintf("batch segment length %d", len(seg)))
+		}
+		code = append(code, seg...)
+		off += n
+	}
+	code = append(code, 0x60, 0x00, 0x60, 0x00, 0xf3)
+	for _, c := range calls {
+		code = append(code, c.payload...)
+	}
+	return code
+}
+
+func (w *world) buildSend(op kernel.Op) (*xchain, *sendInfo, []byte, *big.Int) {
 	c := w.chain(op.Arg(0))
 	u := w.users[kernel.Mod(op.Arg(1), len(w.users))]
 	si := &sendInfo{user: u, feeAmt: big.NewInt(0)}
@@ -258,7 +331,7 @@ func (w *world) opSend(op kernel.Op) {
 		TokenAddress: si.tok.Addr,
 		Receiver:     lower(si.receiver),
 		Amount:       si.amount,
-		FeeOption:    0,
+		FeeOption:    feeOptions[kernel.Mod(op.Arg(7)/7, len(feeOptions))],
 	}
 	if si.callback {
 		ccd.CallbackAddress = c.cbCounter
@@ -328,11 +401,7 @@ func (w *world) opSend(op kernel.Op) {
 	if si.feeTok.IsNative && !si.feeTok.Wrapped {
 		value.Add(value, si.feeAmt)
 	}
-	to := endpointAddr
-	in := &intent{kind: "send", signer: u, eth: true, to: &to, value: value, data: data, send: si,
-		desc: fmt.Sprintf("send %s->%s tok=%s amt=%s call=%d fee=%s cb=%v", c.Cfg.Name, si.dstName, tokDesc(si.tok), si.amount, si.call, si.feeAmt, si.callback)}
-	c.mempool = append(c.mempool, in)
-	w.rec.Logf("submit %s", in.desc)
+	return c, si, data, value
 }
 
 func tokDesc(t *token) string {
